@@ -368,6 +368,40 @@ pub fn gen(out: &mut Out, thorough: bool, focus: &str) {
         l(format!("obj b {}", ops_s.join(" ")), out);
     }
     out.notes.insert("long_histories".into(), format!("{} random histories of 300-1500 ops over 40-200 distinct keys, bucket dump compared after every op", n_long));
+    // grow-then-drain histories: the hash index grows with the number of distinct keys and may be
+    // reorganised when the object empties again; fill to N distinct keys (plus some duplicates), then
+    // remove everything from the front / the back / the middle / by key, then refill
+    {
+        let sizes: &[u64] = if thorough { &[7, 8, 9, 14, 15, 16, 28, 29, 30, 56, 57, 58, 112, 113, 114, 130, 224, 225, 449, 900] } else { &[8, 15, 20, 29, 57, 113, 130, 225] };
+        let mut nh = 0;
+        for &nk in sizes {
+            for mode in 0..5 {
+                let mut ops_s = Vec::new();
+                for i in 0..nk { ops_s.push(format!("push:6b.{:x}:#31;", 0x100 + i)); if i % 9 == 4 { ops_s.push(format!("push:6b.{:x}:t", 0x100 + i / 2)); } }
+                let total = nk + (nk + 4) / 9;
+                for j in 0..total {
+                    let remaining = total - j;
+                    ops_s.push(match mode {
+                        0 => "rmat:0".to_string(),
+                        1 => format!("rmat:{}", remaining - 1),
+                        2 => format!("rmat:{}", remaining / 2),
+                        3 => if j % 2 == 0 { "rmat:0".to_string() } else { format!("rmat:{}", remaining - 1) },
+                        _ => format!("rm:6b.{:x}:9", 0x100 + (j * 7) % nk),
+                    });
+                    // probe a few keys through the index after each removal (present and absent)
+                    if remaining <= 40 || j % 5 == 0 {
+                        ops_s.push(format!("goi:6b.{:x}:n", 0x100 + (nk - 1 - (j % nk))));
+                        ops_s.push(format!("rm:6b.{:x}:0", 0x90));
+                    }
+                }
+                for i in 0..6 { ops_s.push(format!("pushf:6b.{:x}:f", 0x100 + i * 3)); }
+                ops_s.push("sort".into());
+                l(format!("obj b {}", ops_s.join(" ")), out);
+                nh += 1;
+            }
+        }
+        out.notes.insert("grow_drain_histories".into(), format!("{} histories: fill to N distinct keys for N in {:?} (with duplicates), drain from the front / back / middle / both ends / by key with index probes after the removals, refill, sort; bucket dump compared after every op", nh, sizes));
+    }
     // clone-then-diverge, bulk construction, value mutation
     for p in ["new:61=n,62=t,61=f clone push:61:n rm:61:9", "new:- ext:61=n,61=t,62=n setv:1:f getmut:61:#32; goi:63:n goi:61:n sort", "new:61=t,61=n,61=f sort", "new:62=n,61=[],61={},61=n,61=t,61=#31;,61=s; sort"] {
         l(format!("obj qb {}", p), out);
